@@ -1568,6 +1568,7 @@ def _abort_flow(
         event = flow_state.start_event(matching_scores)
         if (
             flow_state.parent_uid
+            and flow_state.parent_uid in state.flow_states
             and state.flow_states[flow_state.parent_uid].flow_id == flow_state.flow_id
         ):
             event.arguments.update({"source_flow_instance_uid": flow_state.parent_uid})
@@ -1687,6 +1688,7 @@ def _finish_flow(
         event = flow_state.start_event(matching_scores)
         if (
             flow_state.parent_uid
+            and flow_state.parent_uid in state.flow_states
             and state.flow_states[flow_state.parent_uid].flow_id == flow_state.flow_id
         ):
             event.arguments.update({"source_flow_instance_uid": flow_state.parent_uid})
@@ -2486,7 +2488,13 @@ def _is_reference_activated_flow(state: State, flow_state: FlowState) -> bool:
     return (
         flow_state.activated > 0
         and flow_state.parent_uid is not None
-        and flow_state.flow_id != state.flow_states[flow_state.parent_uid].flow_id
+        and (
+            # The flow that activated this flow first can already be removed from the state
+            # (see _clean_up_state) while other flows still keep the flow activated
+            flow_state.parent_uid not in state.flow_states
+            or flow_state.flow_id
+            != state.flow_states[flow_state.parent_uid].flow_id
+        )
     )
 
 
